@@ -628,7 +628,9 @@ def c08_n4(ctx):
         raise Anchor("C08-N4", "single Segments::gaps call in get_all_naks")
     g = gaps[0]
     a = [expr_str(x) for x in g[3]]
-    if a == ["self.saved_segments", "const(0)", "Option::unwrap_or(self.file_size, Segments::end_or_0(self.saved_segments))"]:
+    END = ("Segments::end_or_0(self.saved_segments)", "Option::unwrap_or(Segments::end(self.saved_segments), const(0))", "Option::unwrap_or_default(Segments::end(self.saved_segments))")
+    hi_ok = [("Option::unwrap_or(self.file_size, %s)" % e_) for e_ in END] + [("phi(self.file_size@Some.0 | %s)" % e_) for e_ in END] + [("phi(%s | self.file_size@Some.0)" % e_) for e_ in END] + [("Option::unwrap_or_else(self.file_size, closure %s)" % "")]
+    if a[:2] == ["self.saved_segments", "const(0)"] and len(a) == 3 and a[2] in hi_ok:
         yield ok("C08-N4", "get_all_naks:window", at(f), "gaps(0, file_size.unwrap_or(end of held data))")
     else:
         yield bad("C08-N4", "get_all_naks:window", at(f), "the full NAK list is computed over %s, not saved_segments.gaps(0, EOF size or end of held data)" % a)
